@@ -35,6 +35,20 @@ type PkgDef struct {
 	Dir   string   // directory relative to the repo
 	Name  string   // package name
 	Files []string // harness files relative to /verif/harness
+	// Rewrites are textual substitutions applied to the CURRENT content of
+	// files of /repo (regenerated on every run) so that a harness can stand
+	// in for an environment function; used identically for the symbolic run
+	// and the native replay. A pattern that is not found exactly Count times
+	// makes the run inconclusive.
+	Rewrites []Rewrite
+}
+
+// Rewrite is one textual substitution in a file of the package.
+type Rewrite struct {
+	File  string // relative to the package dir
+	Old   string
+	New   string
+	Count int
 }
 
 // CheckDef defines one property check.
@@ -145,19 +159,30 @@ func buildOverlay(c *CheckDef, withTest bool, only *PkgDef) (map[string][]byte, 
 	ov := map[string][]byte{}
 	for i := range c.Pkgs {
 		p := &c.Pkgs[i]
-		if only != nil && p != only {
-			continue
-		}
 		var files []string
 		for _, f := range p.Files {
 			files = append(files, filepath.Join(verifDir, "harness", f))
 		}
-		m, err := sym.HarnessFiles(verifDir, repoDir, p.Dir, p.Name, files, withTest)
+		m, err := sym.HarnessFiles(verifDir, repoDir, p.Dir, p.Name, files, withTest && (only == nil || p == only))
 		if err != nil {
 			return nil, err
 		}
 		for k, v := range m {
 			ov[k] = v
+		}
+		for _, rw := range p.Rewrites {
+			fp := filepath.Join(repoDir, p.Dir, rw.File)
+			cur, ok := ov[fp]
+			if !ok {
+				cur, err = os.ReadFile(fp)
+				if err != nil {
+					return nil, err
+				}
+			}
+			if n := strings.Count(string(cur), rw.Old); n != rw.Count {
+				return nil, fmt.Errorf("rewrite of %s: pattern %q found %d times, want %d (the source changed shape)", fp, rw.Old, n, rw.Count)
+			}
+			ov[fp] = []byte(strings.ReplaceAll(string(cur), rw.Old, rw.New))
 		}
 	}
 	return ov, nil
